@@ -506,15 +506,15 @@ Qed.
 
 (* ------------------------------------------------------------------ SourceEx *)
 Section SourceExProofs.
-  Variable Source : str -> option str.
-  Lemma source_ex_spec src toks : tiling src toks = true ->
+  Variable Source : str -> bool -> option str.
+  Lemma source_ex_spec src class toks : tiling src toks = true ->
     exists r, rearrange src toks = Ok r /\
-      source_ex Source src toks = Ok (match Source src with Some f => Some f | None => Source r end).
+      source_ex Source src class toks = Ok (match Source src class with Some f => Some f | None => Source r class end).
   Proof. intros H. destruct (rearrange_no_panic src toks H) as [r Hr]. exists r. split; auto.
-    unfold source_ex. rewrite Hr. destruct (Source src); reflexivity. Qed.
+    unfold source_ex. rewrite Hr. destruct (Source src class); reflexivity. Qed.
 
-  Lemma source_ex_succeeds src toks r : tiling src toks = true -> rearrange src toks = Ok r ->
-    (Source src <> None \/ Source r <> None) -> exists f, source_ex Source src toks = Ok (Some f).
-  Proof. intros H Hr Hs. unfold source_ex. rewrite Hr. destruct (Source src) as [f|]; [eauto|].
-    cbn [bind]. destruct (Source r) as [f|]; [eauto|]. destruct Hs; congruence. Qed.
+  Lemma source_ex_succeeds src class toks r : tiling src toks = true -> rearrange src toks = Ok r ->
+    (Source src class <> None \/ Source r class <> None) -> exists f, source_ex Source src class toks = Ok (Some f).
+  Proof. intros H Hr Hs. unfold source_ex. rewrite Hr. destruct (Source src class) as [f|]; [eauto|].
+    cbn [bind]. destruct (Source r class) as [f|]; [eauto|]. destruct Hs; congruence. Qed.
 End SourceExProofs.
